@@ -5,7 +5,7 @@ import ast
 
 from sa.astx import dotted, src
 from sa.selftest import Mutant, Silent
-from sa.props._lib_a import (DEFER, Q, CallGraph, ICModel, guarded_by_some_fact, _zero_fact, aliases, attr_of, avoiding_path, call_nodes, calls_of, catching_handlers,
+from sa.props._lib_a import (DEFER, Q, CallGraph, ICModel, group, guarded_by_some_fact, _zero_fact, aliases, attr_of, avoiding_path, call_nodes, calls_of, catching_handlers,
                              exc_escape, facts, handler_catches_all, handler_names, ident_fact, is_const,
                              is_name, known_bool, known_zero, method_call, name_assign_nodes, no_exc, params, passes_between, stmt_nodes,
                              sub0, targets_values)
@@ -34,345 +34,366 @@ IC = "_inlineCallbacks"
 
 def check(ctx):
     mod = ctx.mod(DEFER)
-    M = ICModel(ctx)
-    g, q, W = M.g, M.q, M.W
-    res, gen, status, cx = M.p_result, M.p_gen, M.p_status, M.p_context
-    fires_cb = call_nodes(g, lambda c: M.is_fire(c) and c.func.attr == "callback")
-    fires_eb = call_nodes(g, lambda c: M.is_fire(c) and c.func.attr == "errback")
-    ctx.check(bool(fires_cb) and bool(fires_eb), "fire/both-outcomes", q, "the result Deferred is never called back / never errbacked")
+    M = None
+    stop_h, all_h, trapped = set(), set(), set()
+    with group(ctx, "driver/model"):
+        M = ICModel(ctx)
+        g, q, W = M.g, M.q, M.W
+        res, gen, status, cx = M.p_result, M.p_gen, M.p_status, M.p_context
+        fires_cb = call_nodes(g, lambda c: M.is_fire(c) and c.func.attr == "callback")
+        fires_eb = call_nodes(g, lambda c: M.is_fire(c) and c.func.attr == "errback")
+        ctx.check(bool(fires_cb) and bool(fires_eb), "fire/both-outcomes", q, "the result Deferred is never called back / never errbacked")
 
     # ---- fire once, then return ------------------------------------------------------------------
-    for n in M.fires:
-        st = M.at(n)
-        cons = ctx.construct(q, g.node(n).ast)
-        bad = sorted(s for s in st if s[2] == 1)
-        ctx.check(bool(st) and not bad, "fire/once-per-run", cons, f"the result Deferred can be fired a second time (state {bad[:2]}): AlreadyCalledError")
-        wit = avoiding_path(g, [n], set(M.resumes) | set(M.regs) | set(M.fires), [])
-        ctx.check(wit is None, "fire/then-return", cons,
-                  "after firing the result the driver goes on (resumes the finished generator / fires again)", witness=g.describe(wit))
-        bad = sorted(s for s in st if s[1] == 1)
-        ctx.check(not bad, "fire/not-while-suspended", cons, f"the result fires while a helper is still registered on an awaited Deferred (state {bad[:2]})")
-    for n in M.resumes + M.regs:
-        st = M.at(n)
-        bad = sorted(s for s in st if s[2] == 1 or s[1] == 1)
-        ctx.check(bool(st) and not bad, "resume/only-with-an-outcome", ctx.construct(q, g.node(n).ast),
-                  f"the generator is resumed / a helper registered in state {bad[:2]} (awaited Deferred still pending, or result already fired)")
+    with group(ctx, "driver/fire-once"):
+        for n in M.fires:
+            st = M.at(n)
+            cons = ctx.construct(q, g.node(n).ast)
+            bad = sorted(s for s in st if s[2] == 1)
+            ctx.check(bool(st) and not bad, "fire/once-per-run", cons, f"the result Deferred can be fired a second time (state {bad[:2]}): AlreadyCalledError")
+            wit = avoiding_path(g, [n], set(M.resumes) | set(M.regs) | set(M.fires), [])
+            ctx.check(wit is None, "fire/then-return", cons,
+                      "after firing the result the driver goes on (resumes the finished generator / fires again)", witness=g.describe(wit))
+            bad = sorted(s for s in st if s[1] == 1)
+            ctx.check(not bad, "fire/not-while-suspended", cons, f"the result fires while a helper is still registered on an awaited Deferred (state {bad[:2]})")
+        for n in M.resumes + M.regs:
+            st = M.at(n)
+            bad = sorted(s for s in st if s[2] == 1 or s[1] == 1)
+            ctx.check(bool(st) and not bad, "resume/only-with-an-outcome", ctx.construct(q, g.node(n).ast),
+                      f"the generator is resumed / a helper registered in state {bad[:2]} (awaited Deferred still pending, or result already fired)")
 
     # ---- exceptions of the resume -----------------------------------------------------------------
-    stop_h, all_h = set(), set()
-    for n in M.resumes:
-        cons = ctx.construct(q, g.node(n).ast)
-        wit = exc_escape(g, n)
-        hs = catching_handlers(g, n)
-        ctx.check(wit is None, "resume/exceptions-caught", cons,
-                  "an exception leaving the generator (BaseException included) escapes _inlineCallbacks instead of failing the result Deferred "
-                  "(handlers: " + ", ".join(x for h in hs for x in handler_names(g.node(h).ast)) + ")", witness=g.describe(wit))
-        for h in hs:
-            names = handler_names(g.node(h).ast)
-            if "StopIteration" in names or "_DefGen_Return" in names:
-                stop_h.add(h)
-            if handler_catches_all(g.node(h).ast):
-                all_h.add(h)
-        ctx.check(any("StopIteration" in handler_names(g.node(h).ast) for h in hs), "resume/return-recognised", cons,
-                  "StopIteration (the generator's return) is not handled separately: a normal return would errback the result")
-    # a normal return fires callback(e.value); only that
-    for n in fires_cb:
-        c = calls_of(g, n, lambda c: M.is_fire(c))[0]
-        V = c.args[0] if len(c.args) == 1 else None
-        cons = ctx.construct(q, c)
-        direct = [h for h in stop_h if V is not None and _value_of(V, g.node(h).ast.name) and avoiding_path(g, [g.entry], [n], [h]) is None]
-        if direct:
-            ctx.ok("return-value/flow", cons, "called back with <handler exception>.value inside the handler")
-            continue
-        ctx.check(is_name(V), "return-value/flow", cons, "the result is not called back with the value variable")
-        wit = avoiding_path(g, [g.entry], [n], stop_h)
-        ctx.check(wit is None, "fire/callback-only-on-return", cons,
-                  "the result can be called back although the generator has not returned (it merely yielded)", witness=g.describe(wit))
-        if is_name(V):
-            for h in sorted(stop_h):
-                e = g.node(h).ast.name
-                good = stmt_nodes(g, lambda st: any(is_name(t, V.id) and v is not None and _value_of(v, e) for t, v in targets_values(st)))
-                wit = avoiding_path(g, [h], [n], good)
-                ctx.check(bool(e) and wit is None, "return-value/flow", ctx.construct(q, "except " + "/".join(handler_names(g.node(h).ast))),
-                          f"the value passed to the result Deferred is not taken from the exception's .value on every path (variable {V.id})",
-                          witness=g.describe(wit))
-            others = [d for d in name_assign_nodes(g, V.id) if not any(
-                is_name(t, V.id) and v is not None and (is_const(v, None) or any(_value_of(v, g.node(h).ast.name) for h in stop_h))
-                for t, v in targets_values(g.node(d).ast))]
-            ctx.check(not others, "return-value/flow", cons + " (other definitions)", f"{V.id} is also assigned from something that is not the generator's return value")
-    for h in sorted(stop_h):
-        wit = avoiding_path(g, [h], [g.exit], fires_cb)
-        ctx.check(wit is None, "return-value/fires-callback", ctx.construct(q, "except " + "/".join(handler_names(g.node(h).ast))),
-                  "after the generator returned, _inlineCallbacks can leave without calling back the result", witness=g.describe(wit))
-    for n in fires_eb:
-        c = calls_of(g, n, lambda c: M.is_fire(c))[0]
-        cons = ctx.construct(q, c)
-        wit = avoiding_path(g, [g.entry], [n], all_h)
-        ctx.check(wit is None, "fire/errback-only-on-exception", cons, "the result can errback without an exception having left the generator", witness=g.describe(wit))
-        ok = (not c.args and not c.keywords) or (len(c.args) == 1 and isinstance(c.args[0], ast.Call) and dotted(c.args[0].func) == "Failure" and not c.args[0].args)
-        ctx.check(ok, "fire/errback-current-exception", cons, "the errback does not carry the exception currently being handled")
-        ctx.check(any(g.path([h], [n], edge_ok=no_exc) for h in all_h), "fire/errback-current-exception", cons + " (inside the handler)",
-                  "the argument-less errback() is not executed inside the catch-all handler")
-    for h in sorted(all_h):
-        wit = avoiding_path(g, [h], [g.exit], fires_eb)
-        ctx.check(wit is None, "resume/exception-fails-result", ctx.construct(q, "except " + "/".join(handler_names(g.node(h).ast))),
-                  "an exception leaving the generator is swallowed without failing the result Deferred", witness=g.describe(wit))
+    with group(ctx, "driver/exceptions"):
+        for n in M.resumes:
+            cons = ctx.construct(q, g.node(n).ast)
+            wit = exc_escape(g, n)
+            hs = catching_handlers(g, n)
+            ctx.check(wit is None, "resume/exceptions-caught", cons,
+                      "an exception leaving the generator (BaseException included) escapes _inlineCallbacks instead of failing the result Deferred "
+                      "(handlers: " + ", ".join(x for h in hs for x in handler_names(g.node(h).ast)) + ")", witness=g.describe(wit))
+            for h in hs:
+                names = handler_names(g.node(h).ast)
+                if "StopIteration" in names or "_DefGen_Return" in names:
+                    stop_h.add(h)
+                if handler_catches_all(g.node(h).ast):
+                    all_h.add(h)
+            ctx.check(any("StopIteration" in handler_names(g.node(h).ast) for h in hs), "resume/return-recognised", cons,
+                      "StopIteration (the generator's return) is not handled separately: a normal return would errback the result")
+        # a normal return fires callback(e.value); only that
+        for n in fires_cb:
+            c = calls_of(g, n, lambda c: M.is_fire(c))[0]
+            V = c.args[0] if len(c.args) == 1 else None
+            cons = ctx.construct(q, c)
+            direct = [h for h in stop_h if V is not None and _value_of(V, g.node(h).ast.name) and avoiding_path(g, [g.entry], [n], [h]) is None]
+            if direct:
+                ctx.ok("return-value/flow", cons, "called back with <handler exception>.value inside the handler")
+                continue
+            ctx.check(is_name(V), "return-value/flow", cons, "the result is not called back with the value variable")
+            wit = avoiding_path(g, [g.entry], [n], stop_h)
+            ctx.check(wit is None, "fire/callback-only-on-return", cons,
+                      "the result can be called back although the generator has not returned (it merely yielded)", witness=g.describe(wit))
+            if is_name(V):
+                for h in sorted(stop_h):
+                    e = g.node(h).ast.name
+                    good = stmt_nodes(g, lambda st: any(is_name(t, V.id) and v is not None and _value_of(v, e) for t, v in targets_values(st)))
+                    wit = avoiding_path(g, [h], [n], good)
+                    ctx.check(bool(e) and wit is None, "return-value/flow", ctx.construct(q, "except " + "/".join(handler_names(g.node(h).ast))),
+                              f"the value passed to the result Deferred is not taken from the exception's .value on every path (variable {V.id})",
+                              witness=g.describe(wit))
+                others = [d for d in name_assign_nodes(g, V.id) if not any(
+                    is_name(t, V.id) and v is not None and (is_const(v, None) or any(_value_of(v, g.node(h).ast.name) for h in stop_h))
+                    for t, v in targets_values(g.node(d).ast))]
+                ctx.check(not others, "return-value/flow", cons + " (other definitions)", f"{V.id} is also assigned from something that is not the generator's return value")
+        for h in sorted(stop_h):
+            wit = avoiding_path(g, [h], [g.exit], fires_cb)
+            ctx.check(wit is None, "return-value/fires-callback", ctx.construct(q, "except " + "/".join(handler_names(g.node(h).ast))),
+                      "after the generator returned, _inlineCallbacks can leave without calling back the result", witness=g.describe(wit))
+        for n in fires_eb:
+            c = calls_of(g, n, lambda c: M.is_fire(c))[0]
+            cons = ctx.construct(q, c)
+            wit = avoiding_path(g, [g.entry], [n], all_h)
+            ctx.check(wit is None, "fire/errback-only-on-exception", cons, "the result can errback without an exception having left the generator", witness=g.describe(wit))
+            ok = (not c.args and not c.keywords) or (len(c.args) == 1 and isinstance(c.args[0], ast.Call) and dotted(c.args[0].func) == "Failure" and not c.args[0].args)
+            ctx.check(ok, "fire/errback-current-exception", cons, "the errback does not carry the exception currently being handled")
+            ctx.check(any(g.path([h], [n], edge_ok=no_exc) for h in all_h), "fire/errback-current-exception", cons + " (inside the handler)",
+                      "the argument-less errback() is not executed inside the catch-all handler")
+        for h in sorted(all_h):
+            wit = avoiding_path(g, [h], [g.exit], fires_eb)
+            ctx.check(wit is None, "resume/exception-fails-result", ctx.construct(q, "except " + "/".join(handler_names(g.node(h).ast))),
+                      "an exception leaving the generator is swallowed without failing the result Deferred", witness=g.describe(wit))
 
     # ---- send a value, throw a Failure ---------------------------------------------------------------
-    isf_locals = {t.id for n in stmt_nodes(g, lambda s: True) for t, v in targets_values(g.node(n).ast)
-                  if isinstance(t, ast.Name) and v is not None and _is_failure_test(v, res)}
-    isf_nodes = [n for n in stmt_nodes(g, lambda s: any(isinstance(t, ast.Name) and v is not None and _is_failure_test(v, res) for t, v in targets_values(s)))]
-    isf = lambda e: _is_failure_test(e, res) or (isinstance(e, ast.Name) and e.id in isf_locals)
-    for n in M.resumes:
-        node = g.node(n)
-        cons = ctx.construct(q, node.ast)
-        is_send = any(isinstance(x, ast.Attribute) and x.attr == "send" and is_name(x.value, gen) for x in ast.walk(node.ast))
-        is_throw = any(isinstance(x, ast.Attribute) and x.attr in ("throwExceptionIntoGenerator", "throw") for x in ast.walk(node.ast))
-        v = known_bool(g, n, isf)
-        if is_send and not is_throw:
-            ctx.check(v is False, "resume/send-or-throw", cons, "a Failure outcome can be *sent* into the generator as a value instead of being raised in it")
-            ok = any(isinstance(c, ast.Call) and ((attr_of(c.func, "send", gen) and len(c.args) == 1 and is_name(c.args[0], res)) or
-                                                  (isinstance(c.func, ast.Attribute) and c.func.attr == "run" and len(c.args) == 2
-                                                   and attr_of(c.args[0], "send", gen) and is_name(c.args[1], res))) for c in ast.walk(node.ast))
-            ctx.check(ok, "resume/sends-the-outcome", cons, f"the value sent into the generator is not the last outcome `{res}`")
-        elif is_throw:
-            ctx.check(v is True, "resume/send-or-throw", cons, "a plain value outcome can be thrown into the generator")
-            recv_ok = any(isinstance(x, ast.Attribute) and x.attr == "throwExceptionIntoGenerator" and is_name(_uncast(x.value), res) for x in ast.walk(node.ast))
-            arg_ok = any(isinstance(c, ast.Call) and any(is_name(a, gen) for a in c.args) for c in ast.walk(node.ast))
-            ctx.check(recv_ok and arg_ok, "resume/sends-the-outcome", cons, f"the exception thrown into the generator is not the last outcome `{res}`")
-        ctx.check(any(is_name(t, res) for t, _ in targets_values(node.ast)), "resume/next-outcome", cons,
-                  f"what the generator yields next is not stored in `{res}` (it is the object examined / awaited next)")
-    # the isinstance test is fresh for every resume
-    fresh_from = [d for d in name_assign_nodes(g, res) if d not in M.resumes] + [g.entry]
-    wit = avoiding_path(g, fresh_from, M.resumes, isf_nodes) if isf_locals else None
-    ctx.check(wit is None, "resume/send-or-throw", q + " | <failure test is fresh>",
-              "the send/throw decision uses an isinstance test taken before the outcome was (re)assigned", witness=g.describe(wit))
+    with group(ctx, "driver/send-or-throw"):
+        isf_locals = {t.id for n in stmt_nodes(g, lambda s: True) for t, v in targets_values(g.node(n).ast)
+                      if isinstance(t, ast.Name) and v is not None and _is_failure_test(v, res)}
+        isf_nodes = [n for n in stmt_nodes(g, lambda s: any(isinstance(t, ast.Name) and v is not None and _is_failure_test(v, res) for t, v in targets_values(s)))]
+        isf = lambda e: _is_failure_test(e, res) or (isinstance(e, ast.Name) and e.id in isf_locals)
+        for n in M.resumes:
+            node = g.node(n)
+            cons = ctx.construct(q, node.ast)
+            is_send = any(isinstance(x, ast.Attribute) and x.attr == "send" and is_name(x.value, gen) for x in ast.walk(node.ast))
+            is_throw = any(isinstance(x, ast.Attribute) and x.attr in ("throwExceptionIntoGenerator", "throw") for x in ast.walk(node.ast))
+            v = known_bool(g, n, isf)
+            if is_send and not is_throw:
+                ctx.check(v is False, "resume/send-or-throw", cons, "a Failure outcome can be *sent* into the generator as a value instead of being raised in it")
+                ok = any(isinstance(c, ast.Call) and ((attr_of(c.func, "send", gen) and len(c.args) == 1 and is_name(c.args[0], res)) or
+                                                      (isinstance(c.func, ast.Attribute) and c.func.attr == "run" and len(c.args) == 2
+                                                       and attr_of(c.args[0], "send", gen) and is_name(c.args[1], res))) for c in ast.walk(node.ast))
+                ctx.check(ok, "resume/sends-the-outcome", cons, f"the value sent into the generator is not the last outcome `{res}`")
+            elif is_throw:
+                ctx.check(v is True, "resume/send-or-throw", cons, "a plain value outcome can be thrown into the generator")
+                recv_ok = any(isinstance(x, ast.Attribute) and x.attr == "throwExceptionIntoGenerator" and is_name(_uncast(x.value), res) for x in ast.walk(node.ast))
+                arg_ok = any(isinstance(c, ast.Call) and any(is_name(a, gen) for a in c.args) for c in ast.walk(node.ast))
+                ctx.check(recv_ok and arg_ok, "resume/sends-the-outcome", cons, f"the exception thrown into the generator is not the last outcome `{res}`")
+            ctx.check(any(is_name(t, res) for t, _ in targets_values(node.ast)), "resume/next-outcome", cons,
+                      f"what the generator yields next is not stored in `{res}` (it is the object examined / awaited next)")
+        # the isinstance test is fresh for every resume
+        fresh_from = [d for d in name_assign_nodes(g, res) if d not in M.resumes] + [g.entry]
+        wit = avoiding_path(g, fresh_from, M.resumes, isf_nodes) if isf_locals else None
+        ctx.check(wit is None, "resume/send-or-throw", q + " | <failure test is fresh>",
+                  "the send/throw decision uses an isinstance test taken before the outcome was (re)assigned", witness=g.describe(wit))
 
     # ---- registration --------------------------------------------------------------------------------
-    H = M.helper
-    hq = Q + M.helper_name
-    hp = params(H)
-    for r in M.regs:
-        c = M.reg_calls[r]
-        cons = ctx.construct(q, c)
-        both = c.func.attr == "addBoth" or (c.func.attr == "addCallbacks" and len(c.args) >= 2 and is_name(c.args[0], M.helper_name) and is_name(c.args[1], M.helper_name))
-        ctx.check(both, "await/both-outcomes-resume", cons,
-                  f"the helper is registered with {c.func.attr}: a failure (or a success) of the awaited Deferred never resumes the generator")
-        ctx.check(isinstance(c.func.value, ast.Name) and c.func.value.id == res, "await/registered-on-yielded-object", cons,
-                  f"the helper is not registered on the object the generator yielded (`{res}`)")
-        # extra arguments continue the same generator / status / context
-        extra = [a.id if isinstance(a, ast.Name) else None for a in c.args[1:]]
-        recalls = [x for x in ast.walk(H) if isinstance(x, ast.Call) and is_name(x.func, IC)]
-        ctx.check(len(recalls) == 1, "await/helper-continues-same-run", hq, "the helper does not contain exactly one call of _inlineCallbacks")
-        for rc in recalls:
-            want = [None, gen, status, cx]
-            ok = len(rc.args) == 4 and not rc.keywords and is_name(rc.args[0]) and rc.args[0].id in aliases(H, hp[0])
-            for j in (1, 2, 3):
-                a = rc.args[j] if len(rc.args) > j else None
-                k = None
-                if is_name(a):
-                    cands = [i for i, p in enumerate(hp) if a.id in aliases(H, p)]
-                    k = cands[0] if cands else None
-                ok = ok and k is not None and 1 <= k <= len(extra) and extra[k - 1] == want[j]
-            ctx.check(ok, "await/helper-continues-same-run", ctx.construct(hq, rc),
-                      "the helper does not resume _inlineCallbacks(<outcome>, gen, status, context) of the run that registered it")
-    # a synchronously delivered outcome is read before the slot is reset
-    reads = stmt_nodes(g, lambda st: any(is_name(t, res) and v is not None and sub0(v, W, 1) for t, v in targets_values(st)))
-    resets = stmt_nodes(g, lambda st: any(sub0(t, W, 1) for t, _ in targets_values(st)))
-    delivered = [d for t in M.cell_tests for d, l in g.succ[t] if l == "F"]
-    wit = avoiding_path(g, delivered, M.resumes, reads, strict=False) if delivered else None
-    ctx.check(bool(reads) and bool(delivered) and wit is None, "await/sync-outcome-read", q + f" | {res} = {W}[1]",
-              "after an already-fired Deferred the generator is resumed without the delivered outcome", witness=g.describe(wit))
-    ctx.check(not passes_between(g, delivered, resets, reads, stop=M.resumes), "await/sync-outcome-read-before-reset", q + f" | {res} = {W}[1]",
-              "waiting[1] is reset before the delivered outcome is read from it: the generator receives None")
-    hstores = [st for st in ast.walk(H) if isinstance(st, (ast.Assign, ast.AnnAssign)) and any(
-        isinstance(t, ast.Subscript) and isinstance(t.value, ast.Name) and t.value.id in aliases(H, hp[1]) and sub0(t, t.value.id, 1)
-        and is_name(v) and v.id in aliases(H, hp[0]) for t, v in targets_values(st))]
-    ctx.check(len(hp) >= 2 and bool(hstores), "await/sync-outcome-read", hq, "the helper does not leave the outcome in waiting[1]")
+    with group(ctx, "driver/registration"):
+        ctx.check(bool(M.regs), "await/both-outcomes-resume", q + " | <registration on the yielded Deferred>",
+                  "nothing is registered on the Deferred the generator yielded: the generator is never resumed")
+        for r in M.regs:
+            c = M.reg_calls[r]
+            ctx.check(isinstance(c.func.value, ast.Name) and c.func.value.id == res, "await/registered-on-yielded-object", ctx.construct(q, c),
+                      f"the helper is not registered on the object the generator yielded (`{res}`)")
+            for outcome, callee, extra in M.routes[r]:
+                what = "success" if outcome == "ok" else "failure"
+                cons = ctx.construct(q, c) + f" [{what}]"
+                hname = callee.id if isinstance(callee, ast.Name) else None
+                ctx.check(hname in M.helpers, "await/both-outcomes-resume", cons,
+                          f"a {what} of the awaited Deferred is not routed to the resuming helper ({c.func.attr}: "
+                          f"{src(callee) if callee is not None else 'passes through'}): the generator never observes that outcome the way a synchronous "
+                          "call would (it is never resumed, or resumed outside the waiting-cell protocol)")
+                if hname not in M.helpers:
+                    continue
+                # extra arguments continue the same generator / status / context
+                H = M.helpers[hname][0]
+                hq = Q + hname
+                hp = params(H)
+                names = [a.id if isinstance(a, ast.Name) else None for a in (extra or [])]
+                recalls = [x for x in ast.walk(H) if isinstance(x, ast.Call) and is_name(x.func, IC)]
+                ctx.check(len(recalls) == 1, "await/helper-continues-same-run", hq + f" [{what}]", "the helper does not contain exactly one call of _inlineCallbacks")
+                for rc in recalls:
+                    want = [None, gen, status, cx]
+                    ok = len(rc.args) == 4 and not rc.keywords and is_name(rc.args[0]) and rc.args[0].id in aliases(H, hp[0])
+                    for j_ in (1, 2, 3):
+                        a = rc.args[j_] if len(rc.args) > j_ else None
+                        k = None
+                        if is_name(a):
+                            cands = [i_ for i_, p_ in enumerate(hp) if a.id in aliases(H, p_)]
+                            k = cands[0] if cands else None
+                        ok = ok and k is not None and 1 <= k <= len(names) and names[k - 1] == want[j_]
+                    ctx.check(ok, "await/helper-continues-same-run", ctx.construct(hq, rc) + f" [{what}]",
+                              "the helper does not resume _inlineCallbacks(<outcome>, gen, status, context) of the run that registered it")
+        # a synchronously delivered outcome is read before the slot is reset
+        reads = stmt_nodes(g, lambda st: any(is_name(t, res) and v is not None and sub0(v, W, 1) for t, v in targets_values(st)))
+        resets = stmt_nodes(g, lambda st: any(sub0(t, W, 1) for t, _ in targets_values(st)))
+        delivered = [d for t in M.cell_tests for d, l in g.succ[t] if l == "F"]
+        wit = avoiding_path(g, delivered, M.resumes, reads, strict=False) if delivered else None
+        ctx.check(bool(reads) and bool(delivered) and wit is None, "await/sync-outcome-read", q + f" | {res} = {W}[1]",
+                  "after an already-fired Deferred the generator is resumed without the delivered outcome", witness=g.describe(wit))
+        ctx.check(not passes_between(g, delivered, resets, reads, stop=M.resumes), "await/sync-outcome-read-before-reset", q + f" | {res} = {W}[1]",
+                  "waiting[1] is reset before the delivered outcome is read from it: the generator receives None")
+        for hname, (H, k) in sorted(M.helpers.items()):
+            hp = params(H)
+            hstores = [st for st in ast.walk(H) if isinstance(st, (ast.Assign, ast.AnnAssign)) and any(
+                isinstance(t, ast.Subscript) and isinstance(t.value, ast.Name) and len(hp) > k and t.value.id in aliases(H, hp[k]) and sub0(t, t.value.id, 1)
+                and is_name(v) and v.id in aliases(H, hp[0]) for t, v in targets_values(st))]
+            ctx.check(bool(hstores), "await/sync-outcome-read", Q + hname, "the helper does not leave the outcome in waiting[1]")
 
     # ---- suspension records the awaited Deferred ------------------------------------------------------
-    stores = stmt_nodes(g, lambda st: any(attr_of(t, "waitingOn", status) for t, _ in targets_values(st)))
-    ctx.check(bool(stores), "cancel-target/recorded", q, "status.waitingOn is never recorded: cancel() has nothing to cancel")
-    for a, l in sorted(set(g.pred[g.exit])):
-        st = M.at(a)
-        if not any(s[1] == 1 for s in st):
-            continue
-        wit = avoiding_path(g, M.regs, [a], stores)
-        ctx.check(wit is None, "cancel-target/recorded-on-every-suspension", ctx.construct(q, g.node(a).ast) + " @suspend",
-                  "the driver can suspend on a Deferred without recording it in status.waitingOn (cancel would hit a stale or missing target)",
-                  witness=g.describe(wit))
-    for s_ in stores:
-        v = [v for t, v in targets_values(g.node(s_).ast) if attr_of(t, "waitingOn", status)][0]
-        cons = ctx.construct(q, g.node(s_).ast)
-        recv = {M.reg_calls[r].func.value.id for r in M.regs if isinstance(M.reg_calls[r].func.value, ast.Name)}
-        ctx.check(is_name(v) and v.id in recv, "cancel-target/is-the-awaited-deferred", cons,
-                  "status.waitingOn is not the variable the helper was registered on")
-        if is_name(v):
-            defs = [d for d in name_assign_nodes(g, v.id) if d not in M.resumes]   # a resume starts a new round
-            between = (passes_between(g, [s_], defs, M.regs, stop=M.resumes + stores) or
-                       passes_between(g, M.regs, defs, [s_], stop=M.resumes + M.regs))
-            ctx.check(not between, "cancel-target/is-the-awaited-deferred", cons + " (same binding)",
-                      f"`{v.id}` is re-assigned between recording it in status.waitingOn and registering the helper on it: "
-                      "cancel() would be sent to a different object (e.g. the raw coroutine instead of its Deferred)")
+    with group(ctx, "driver/cancel-target"):
+        stores = stmt_nodes(g, lambda st: any(attr_of(t, "waitingOn", status) for t, _ in targets_values(st)))
+        ctx.check(bool(stores), "cancel-target/recorded", q, "status.waitingOn is never recorded: cancel() has nothing to cancel")
+        for a, l in sorted(set(g.pred[g.exit])):
+            st = M.at(a)
+            if not any(s[1] == 1 for s in st):
+                continue
+            wit = avoiding_path(g, M.regs, [a], stores)
+            ctx.check(wit is None, "cancel-target/recorded-on-every-suspension", ctx.construct(q, g.node(a).ast) + " @suspend",
+                      "the driver can suspend on a Deferred without recording it in status.waitingOn (cancel would hit a stale or missing target)",
+                      witness=g.describe(wit))
+        for s_ in stores:
+            v = [v for t, v in targets_values(g.node(s_).ast) if attr_of(t, "waitingOn", status)][0]
+            cons = ctx.construct(q, g.node(s_).ast)
+            recv = {M.reg_calls[r].func.value.id for r in M.regs if isinstance(M.reg_calls[r].func.value, ast.Name)}
+            ctx.check(is_name(v) and v.id in recv, "cancel-target/is-the-awaited-deferred", cons,
+                      "status.waitingOn is not the variable the helper was registered on")
+            if is_name(v):
+                defs = [d for d in name_assign_nodes(g, v.id) if d not in M.resumes]   # a resume starts a new round
+                between = (passes_between(g, [s_], defs, M.regs, stop=M.resumes + stores) or
+                           passes_between(g, M.regs, defs, [s_], stop=M.resumes + M.regs))
+                ctx.check(not between, "cancel-target/is-the-awaited-deferred", cons + " (same binding)",
+                          f"`{v.id}` is re-assigned between recording it in status.waitingOn and registering the helper on it: "
+                          "cancel() would be sent to a different object (e.g. the raw coroutine instead of its Deferred)")
 
     # ---- _handleCancelInlineCallbacks ------------------------------------------------------------------
-    hf = ctx.func(DEFER, "_handleCancelInlineCallbacks")
-    hg = ctx.cfg(hf)
-    hq2 = Q + "_handleCancelInlineCallbacks"
-    h_res, h_status = params(hf)[0], params(hf)[1]
-    awaited = {t.id for n in stmt_nodes(hg, lambda s: True) for t, v in targets_values(hg.node(n).ast)
-               if isinstance(t, ast.Name) and v is not None and attr_of(v, "waitingOn", h_status)}
-    cancels = call_nodes(hg, lambda c: isinstance(c.func, ast.Attribute) and c.func.attr == "cancel")
-    ncalls = sum(len(calls_of(hg, n, lambda c: isinstance(c.func, ast.Attribute) and c.func.attr == "cancel")) for n in cancels)
-    ctx.check(ncalls == 1, "cancel/exactly-one-target", hq2, f"cancelling an inlineCallbacks Deferred performs {ncalls} cancel() calls instead of exactly one")
-    dlocal = {t.id: v for n in stmt_nodes(hg, lambda s: True) for t, v in targets_values(hg.node(n).ast)
-              if isinstance(t, ast.Name) and isinstance(v, ast.Call) and dotted(v.func) == "Deferred"}
-    is_newd = lambda v: (isinstance(v, ast.Call) and dotted(v.func) == "Deferred") or (isinstance(v, ast.Name) and v.id in dlocal)
-    newd = stmt_nodes(hg, lambda st: any(attr_of(t, "deferred", h_status) and is_newd(v) for t, v in targets_values(st) if v is not None))
-    for n in cancels:
-        for c in calls_of(hg, n, lambda c: isinstance(c.func, ast.Attribute) and c.func.attr == "cancel"):
-            tgt = c.func.value
-            ctx.check((is_name(tgt) and tgt.id in awaited) or attr_of(tgt, "waitingOn", h_status), "cancel/target-is-waitingOn", ctx.construct(hq2, c),
-                      "the object cancelled is not status.waitingOn (the Deferred the function is suspended on)")
-            if is_name(tgt):
-                defs = name_assign_nodes(hg, tgt.id)
-                ctx.check(len(defs) == 1, "cancel/target-is-waitingOn", ctx.construct(hq2, c) + " (single definition)", f"`{tgt.id}` has several definitions")
-        wit = hg.must_precede(newd, [n]) if newd else [hg.entry, n]
-        ctx.check(wit is None, "cancel/new-result-before-call-out", ctx.construct(hq2, hg.node(n).ast),
-                  "status.deferred is replaced only after <awaited>.cancel(): the cancelled Deferred usually fires synchronously, the generator "
-                  "finishes and fires the *old* (already cancelling) result Deferred -> AlreadyCalledError / outcome lost", witness=hg.describe(wit))
-    wit = avoiding_path(hg, [hg.entry], [hg.exit], cancels)
-    ctx.check(bool(cancels) and wit is None, "cancel/target-is-waitingOn", hq2 + " | <every path cancels>", "the handler can return without cancelling the awaited Deferred",
-              witness=hg.describe(wit))
-    ctx.check(len(newd) == 1, "cancel/new-result-deferred", hq2, "status.deferred is not replaced by one fresh Deferred")
-    for n in newd:
-        v = [v for t, v in targets_values(hg.node(n).ast) if attr_of(t, "deferred", h_status)][0]
-        v = dlocal.get(v.id, v) if isinstance(v, ast.Name) else v
-        ctx.check(_canceller_ok(v, h_status), "cancel/new-result-cancellable", ctx.construct(hq2, hg.node(n).ast),
-                  "the replacement Deferred's canceller is not `lambda d: _addCancelCallbackToDeferred(d, status)`: a second cancel() would not reach the generator")
-    rets = stmt_nodes(hg, lambda s: isinstance(s, ast.Return))
-    ctx.check(bool(rets) and all(attr_of(hg.node(r).ast.value, "deferred", h_status) or (is_name(hg.node(r).ast.value) and hg.node(r).ast.value.id in dlocal) for r in rets) and avoiding_path(hg, [hg.entry], [hg.exit], rets) is None
-              and all(hg.must_precede(newd, [r]) is None for r in rets),
-              "cancel/returns-new-result", hq2, "the handler does not return the replacement Deferred: the outer Deferred would not wait for the function's eventual outcome")
-    traps = [c for c in ast.walk(hf) if isinstance(c, ast.Call) and method_call(c, "trap", h_res)]
-    trapped = {src(a) for c in traps for a in c.args}
+    with group(ctx, "cancel/handler"):
+        hf = ctx.func(DEFER, "_handleCancelInlineCallbacks")
+        hg = ctx.cfg(hf)
+        hq2 = Q + "_handleCancelInlineCallbacks"
+        h_res, h_status = params(hf)[0], params(hf)[1]
+        awaited = {t.id for n in stmt_nodes(hg, lambda s: True) for t, v in targets_values(hg.node(n).ast)
+                   if isinstance(t, ast.Name) and v is not None and attr_of(v, "waitingOn", h_status)}
+        cancels = call_nodes(hg, lambda c: isinstance(c.func, ast.Attribute) and c.func.attr == "cancel")
+        ncalls = sum(len(calls_of(hg, n, lambda c: isinstance(c.func, ast.Attribute) and c.func.attr == "cancel")) for n in cancels)
+        ctx.check(ncalls == 1, "cancel/exactly-one-target", hq2, f"cancelling an inlineCallbacks Deferred performs {ncalls} cancel() calls instead of exactly one")
+        dlocal = {t.id: v for n in stmt_nodes(hg, lambda s: True) for t, v in targets_values(hg.node(n).ast)
+                  if isinstance(t, ast.Name) and isinstance(v, ast.Call) and dotted(v.func) == "Deferred"}
+        is_newd = lambda v: (isinstance(v, ast.Call) and dotted(v.func) == "Deferred") or (isinstance(v, ast.Name) and v.id in dlocal)
+        newd = stmt_nodes(hg, lambda st: any(attr_of(t, "deferred", h_status) and is_newd(v) for t, v in targets_values(st) if v is not None))
+        for n in cancels:
+            for c in calls_of(hg, n, lambda c: isinstance(c.func, ast.Attribute) and c.func.attr == "cancel"):
+                tgt = c.func.value
+                ctx.check((is_name(tgt) and tgt.id in awaited) or attr_of(tgt, "waitingOn", h_status), "cancel/target-is-waitingOn", ctx.construct(hq2, c),
+                          "the object cancelled is not status.waitingOn (the Deferred the function is suspended on)")
+                if is_name(tgt):
+                    defs = name_assign_nodes(hg, tgt.id)
+                    ctx.check(len(defs) == 1, "cancel/target-is-waitingOn", ctx.construct(hq2, c) + " (single definition)", f"`{tgt.id}` has several definitions")
+            wit = hg.must_precede(newd, [n]) if newd else [hg.entry, n]
+            ctx.check(wit is None, "cancel/new-result-before-call-out", ctx.construct(hq2, hg.node(n).ast),
+                      "status.deferred is replaced only after <awaited>.cancel(): the cancelled Deferred usually fires synchronously, the generator "
+                      "finishes and fires the *old* (already cancelling) result Deferred -> AlreadyCalledError / outcome lost", witness=hg.describe(wit))
+        wit = avoiding_path(hg, [hg.entry], [hg.exit], cancels)
+        ctx.check(bool(cancels) and wit is None, "cancel/target-is-waitingOn", hq2 + " | <every path cancels>", "the handler can return without cancelling the awaited Deferred",
+                  witness=hg.describe(wit))
+        ctx.check(len(newd) == 1, "cancel/new-result-deferred", hq2, "status.deferred is not replaced by one fresh Deferred")
+        for n in newd:
+            v = [v for t, v in targets_values(hg.node(n).ast) if attr_of(t, "deferred", h_status)][0]
+            v = dlocal.get(v.id, v) if isinstance(v, ast.Name) else v
+            ctx.check(_canceller_ok(v, h_status), "cancel/new-result-cancellable", ctx.construct(hq2, hg.node(n).ast),
+                      "the replacement Deferred's canceller is not `lambda d: _addCancelCallbackToDeferred(d, status)`: a second cancel() would not reach the generator")
+        rets = stmt_nodes(hg, lambda s: isinstance(s, ast.Return))
+        ctx.check(bool(rets) and all(attr_of(hg.node(r).ast.value, "deferred", h_status) or (is_name(hg.node(r).ast.value) and hg.node(r).ast.value.id in dlocal) for r in rets) and avoiding_path(hg, [hg.entry], [hg.exit], rets) is None
+                  and all(hg.must_precede(newd, [r]) is None for r in rets),
+                  "cancel/returns-new-result", hq2, "the handler does not return the replacement Deferred: the outer Deferred would not wait for the function's eventual outcome")
+        traps = [c for c in ast.walk(hf) if isinstance(c, ast.Call) and method_call(c, "trap", h_res)]
+        trapped = {src(a) for c in traps for a in c.args}
 
     # ---- _addCancelCallbackToDeferred -------------------------------------------------------------------
-    af = ctx.func(DEFER, "_addCancelCallbackToDeferred")
-    ag = ctx.cfg(af)
-    aq = Q + "_addCancelCallbackToDeferred"
-    a_it, a_status = params(af)[0], params(af)[1]
-    its = aliases(af, a_it) | {t.id for st in ast.walk(af) if isinstance(st, ast.Assign) for t, v in targets_values(st)
-                               if isinstance(t, ast.Name) and isinstance(v, ast.Call) and isinstance(v.func, ast.Attribute) and is_name(v.func.value, a_it)
-                               and v.func.attr in ("addErrback", "addCallbacks", "addBoth", "addCallback")}
-    is_it_cbs = lambda e: isinstance(e, ast.Attribute) and e.attr == "callbacks" and isinstance(e.value, ast.Name) and e.value.id in its
-    empties = stmt_nodes(ag, lambda st: any(is_it_cbs(t) and isinstance(v, ast.List) and not v.elts for t, v in targets_values(st) if v is not None))
-    saved = {t.id for n in stmt_nodes(ag, lambda s: True) for t, v in targets_values(ag.node(n).ast) if isinstance(t, ast.Name) and v is not None and is_it_cbs(v)}
-    save_nodes = stmt_nodes(ag, lambda st: any(isinstance(t, ast.Name) and v is not None and is_it_cbs(v) for t, v in targets_values(st)))
-    adds = call_nodes(ag, lambda c: isinstance(c.func, ast.Attribute) and c.func.attr == "addErrback" and isinstance(c.func.value, ast.Name)
-                      and c.func.value.id in its and c.args and is_name(c.args[0], "_handleCancelInlineCallbacks"))
-    exts = call_nodes(ag, lambda c: isinstance(c.func, ast.Attribute) and c.func.attr == "extend" and is_it_cbs(c.func.value) and len(c.args) == 1
-                      and is_name(c.args[0]) and c.args[0].id in saved)
-    ebs = call_nodes(ag, lambda c: isinstance(c.func, ast.Attribute) and c.func.attr == "errback" and isinstance(c.func.value, ast.Name) and c.func.value.id in its)
-    for nodes, what in ((empties, "emptying it.callbacks"), (save_nodes, "saving the old callbacks"), (adds, "addErrback(_handleCancelInlineCallbacks, status)"),
-                        (exts, "re-attaching the old callbacks"), (ebs, "errback(_InternalInlineCallbacksCancelledError())")):
-        wit = avoiding_path(ag, [ag.entry], [ag.exit], nodes)
-        ctx.check(bool(nodes) and wit is None, "cancel-hook/steps-present", f"{aq} | {what}", f"step missing on some path: {what}", witness=ag.describe(wit))
-    for a in adds:
-        c = calls_of(ag, a, lambda c: isinstance(c.func, ast.Attribute) and c.func.attr == "addErrback")[0]
-        ctx.check(len(c.args) == 2 and is_name(c.args[1], a_status), "cancel-hook/handler-gets-status", ctx.construct(aq, c), "the handler is not given this run's status")
-        wit = ag.must_precede(empties, [a]) if empties else [ag.entry, a]
-        ctx.check(wit is None, "cancel-hook/handler-first", ctx.construct(aq, c),
-                  "the cancel handler is added while the user's callbacks are still in the list: they would see the internal cancellation error first",
-                  witness=ag.describe(wit))
-        for e in exts:
-            ctx.check(ag.must_precede([a], [e]) is None, "cancel-hook/handler-first", ctx.construct(aq, ag.node(e).ast),
-                      "the old callbacks are re-attached before the cancel handler is added (it would run last)")
+    with group(ctx, "cancel/hook"):
+        af = ctx.func(DEFER, "_addCancelCallbackToDeferred")
+        ag = ctx.cfg(af)
+        aq = Q + "_addCancelCallbackToDeferred"
+        a_it, a_status = params(af)[0], params(af)[1]
+        its = aliases(af, a_it) | {t.id for st in ast.walk(af) if isinstance(st, ast.Assign) for t, v in targets_values(st)
+                                   if isinstance(t, ast.Name) and isinstance(v, ast.Call) and isinstance(v.func, ast.Attribute) and is_name(v.func.value, a_it)
+                                   and v.func.attr in ("addErrback", "addCallbacks", "addBoth", "addCallback")}
+        is_it_cbs = lambda e: isinstance(e, ast.Attribute) and e.attr == "callbacks" and isinstance(e.value, ast.Name) and e.value.id in its
+        empties = stmt_nodes(ag, lambda st: any(is_it_cbs(t) and isinstance(v, ast.List) and not v.elts for t, v in targets_values(st) if v is not None))
+        saved = {t.id for n in stmt_nodes(ag, lambda s: True) for t, v in targets_values(ag.node(n).ast) if isinstance(t, ast.Name) and v is not None and is_it_cbs(v)}
+        save_nodes = stmt_nodes(ag, lambda st: any(isinstance(t, ast.Name) and v is not None and is_it_cbs(v) for t, v in targets_values(st)))
+        adds = call_nodes(ag, lambda c: isinstance(c.func, ast.Attribute) and c.func.attr == "addErrback" and isinstance(c.func.value, ast.Name)
+                          and c.func.value.id in its and c.args and is_name(c.args[0], "_handleCancelInlineCallbacks"))
+        exts = call_nodes(ag, lambda c: isinstance(c.func, ast.Attribute) and c.func.attr == "extend" and is_it_cbs(c.func.value) and len(c.args) == 1
+                          and is_name(c.args[0]) and c.args[0].id in saved)
+        ebs = call_nodes(ag, lambda c: isinstance(c.func, ast.Attribute) and c.func.attr == "errback" and isinstance(c.func.value, ast.Name) and c.func.value.id in its)
+        for nodes, what in ((empties, "emptying it.callbacks"), (save_nodes, "saving the old callbacks"), (adds, "addErrback(_handleCancelInlineCallbacks, status)"),
+                            (exts, "re-attaching the old callbacks"), (ebs, "errback(_InternalInlineCallbacksCancelledError())")):
+            wit = avoiding_path(ag, [ag.entry], [ag.exit], nodes)
+            ctx.check(bool(nodes) and wit is None, "cancel-hook/steps-present", f"{aq} | {what}", f"step missing on some path: {what}", witness=ag.describe(wit))
+        for a in adds:
+            c = calls_of(ag, a, lambda c: isinstance(c.func, ast.Attribute) and c.func.attr == "addErrback")[0]
+            ctx.check(len(c.args) == 2 and is_name(c.args[1], a_status), "cancel-hook/handler-gets-status", ctx.construct(aq, c), "the handler is not given this run's status")
+            wit = ag.must_precede(empties, [a]) if empties else [ag.entry, a]
+            ctx.check(wit is None, "cancel-hook/handler-first", ctx.construct(aq, c),
+                      "the cancel handler is added while the user's callbacks are still in the list: they would see the internal cancellation error first",
+                      witness=ag.describe(wit))
+            for e in exts:
+                ctx.check(ag.must_precede([a], [e]) is None, "cancel-hook/handler-first", ctx.construct(aq, ag.node(e).ast),
+                          "the old callbacks are re-attached before the cancel handler is added (it would run last)")
+            for e in ebs:
+                ctx.check(ag.must_precede([a], [e]) is None, "cancel-hook/error-after-handler", ctx.construct(aq, ag.node(e).ast),
+                          "the internal cancellation error is raised in the chain before the handler that traps it is installed")
+        for s_ in save_nodes:
+            for e in empties:
+                if s_ != e:
+                    ctx.check(ag.must_precede([s_], [e]) is None, "cancel-hook/old-callbacks-kept", ctx.construct(aq, ag.node(e).ast),
+                              "the callbacks list is emptied before the old callbacks are saved")
         for e in ebs:
-            ctx.check(ag.must_precede([a], [e]) is None, "cancel-hook/error-after-handler", ctx.construct(aq, ag.node(e).ast),
-                      "the internal cancellation error is raised in the chain before the handler that traps it is installed")
-    for s_ in save_nodes:
-        for e in empties:
-            if s_ != e:
-                ctx.check(ag.must_precede([s_], [e]) is None, "cancel-hook/old-callbacks-kept", ctx.construct(aq, ag.node(e).ast),
-                          "the callbacks list is emptied before the old callbacks are saved")
-    for e in ebs:
-        c = calls_of(ag, e, lambda c: isinstance(c.func, ast.Attribute) and c.func.attr == "errback")[0]
-        exc = c.args[0] if c.args else None
-        nm = src(exc.func) if isinstance(exc, ast.Call) else src(exc)
-        ctx.check(not trapped or nm in trapped, "cancel-hook/error-is-the-trapped-one", ctx.construct(aq, c),
-                  f"the error injected ({nm}) is not the one _handleCancelInlineCallbacks traps ({sorted(trapped)})")
+            c = calls_of(ag, e, lambda c: isinstance(c.func, ast.Attribute) and c.func.attr == "errback")[0]
+            exc = c.args[0] if c.args else None
+            nm = src(exc.func) if isinstance(exc, ast.Call) else src(exc)
+            ctx.check(not trapped or nm in trapped, "cancel-hook/error-is-the-trapped-one", ctx.construct(aq, c),
+                      f"the error injected ({nm}) is not the one _handleCancelInlineCallbacks traps ({sorted(trapped)})")
 
     # ---- _cancellableInlineCallbacks -------------------------------------------------------------------
-    cf = ctx.func(DEFER, "_cancellableInlineCallbacks")
-    cq = Q + "_cancellableInlineCallbacks"
-    c_gen = params(cf)[0]
-    dl = [(t.id, v) for st in ast.walk(cf) if isinstance(st, (ast.Assign, ast.AnnAssign)) for t, v in targets_values(st)
-          if isinstance(t, ast.Name) and isinstance(v, ast.Call) and dotted(v.func) == "Deferred"]
-    sl = [(t.id, v) for st in ast.walk(cf) if isinstance(st, (ast.Assign, ast.AnnAssign)) for t, v in targets_values(st)
-          if isinstance(t, ast.Name) and isinstance(v, ast.Call) and dotted(v.func) == "_CancellationStatus"]
-    runs = [c for c in ast.walk(cf) if isinstance(c, ast.Call) and is_name(c.func, IC)]
-    okw = len(dl) == 1 and len(sl) == 1 and len(runs) == 1
-    ctx.check(okw, "entry/wiring", cq, "expected one Deferred(...), one _CancellationStatus(...) and one _inlineCallbacks(...) call")
-    if okw:
-        dn, dv = dl[0]
-        sn, sv = sl[0]
-        ctx.check(len(sv.args) >= 1 and is_name(sv.args[0], dn) and len(sv.args) == 1 and not sv.keywords, "entry/wiring", cq + " | status.deferred",
-                  "the status does not refer to the Deferred that is returned (or starts with a stale waitingOn)")
-        ctx.check(_canceller_ok(dv, sn), "entry/wiring", cq + " | canceller", "the returned Deferred's canceller does not route to _addCancelCallbackToDeferred(d, status)")
-        rc = runs[0]
-        ctx.check(len(rc.args) == 4 and is_const(rc.args[0], None) and is_name(rc.args[1], c_gen) and is_name(rc.args[2], sn), "entry/wiring", cq + " | first run",
-                  "the generator is not started with _inlineCallbacks(None, gen, status, <context>)")
-        rets = [st for st in ast.walk(cf) if isinstance(st, ast.Return)]
-        ctx.check(len(rets) == 1 and is_name(rets[0].value, dn), "entry/wiring", cq + " | return", "the Deferred returned is not the one the status fires")
-    cg = CallGraph(mod)
-    reach_ic = cg.reaching(IC)
-    for ent in ("inlineCallbacks.unwindGenerator", "ensureDeferred", "Deferred.fromCoroutine"):
-        ctx.check(ent in reach_ic, "entry/routes-to-driver", Q + ent, f"{ent} no longer reaches _inlineCallbacks through _cancellableInlineCallbacks")
+    with group(ctx, "entry"):
+        cf = ctx.func(DEFER, "_cancellableInlineCallbacks")
+        cq = Q + "_cancellableInlineCallbacks"
+        c_gen = params(cf)[0]
+        dl = [(t.id, v) for st in ast.walk(cf) if isinstance(st, (ast.Assign, ast.AnnAssign)) for t, v in targets_values(st)
+              if isinstance(t, ast.Name) and isinstance(v, ast.Call) and dotted(v.func) == "Deferred"]
+        sl = [(t.id, v) for st in ast.walk(cf) if isinstance(st, (ast.Assign, ast.AnnAssign)) for t, v in targets_values(st)
+              if isinstance(t, ast.Name) and isinstance(v, ast.Call) and dotted(v.func) == "_CancellationStatus"]
+        runs = [c for c in ast.walk(cf) if isinstance(c, ast.Call) and is_name(c.func, IC)]
+        okw = len(dl) == 1 and len(sl) == 1 and len(runs) == 1
+        ctx.check(okw, "entry/wiring", cq, "expected one Deferred(...), one _CancellationStatus(...) and one _inlineCallbacks(...) call")
+        if okw:
+            dn, dv = dl[0]
+            sn, sv = sl[0]
+            ctx.check(len(sv.args) >= 1 and is_name(sv.args[0], dn) and len(sv.args) == 1 and not sv.keywords, "entry/wiring", cq + " | status.deferred",
+                      "the status does not refer to the Deferred that is returned (or starts with a stale waitingOn)")
+            ctx.check(_canceller_ok(dv, sn), "entry/wiring", cq + " | canceller", "the returned Deferred's canceller does not route to _addCancelCallbackToDeferred(d, status)")
+            rc = runs[0]
+            ctx.check(len(rc.args) == 4 and is_const(rc.args[0], None) and is_name(rc.args[1], c_gen) and is_name(rc.args[2], sn), "entry/wiring", cq + " | first run",
+                      "the generator is not started with _inlineCallbacks(None, gen, status, <context>)")
+            rets = [st for st in ast.walk(cf) if isinstance(st, ast.Return)]
+            ctx.check(len(rets) == 1 and is_name(rets[0].value, dn), "entry/wiring", cq + " | return", "the Deferred returned is not the one the status fires")
+        cg = CallGraph(mod)
+        reach_ic = cg.reaching(IC)
+        for ent in ("inlineCallbacks.unwindGenerator", "ensureDeferred", "Deferred.fromCoroutine"):
+            ctx.check(ent in reach_ic, "entry/routes-to-driver", Q + ent, f"{ent} no longer reaches _inlineCallbacks through _cancellableInlineCallbacks")
 
     # ---- Deferred.__iter__ / __await__ ------------------------------------------------------------------
-    itf = ctx.func(DEFER, "Deferred.__iter__")
-    ig = ctx.cfg(itf)
-    iq = Q + "Deferred.__iter__"
-    R = {t.id for n in stmt_nodes(ig, lambda s: True) for t, v in targets_values(ig.node(n).ast) if isinstance(t, ast.Name) and v is not None and _reads_self_result(v)}
-    read_nodes = stmt_nodes(ig, lambda st: any(isinstance(t, ast.Name) and v is not None and _reads_self_result(v) for t, v in targets_values(st)))
-    ctx.need(R, "`result = getattr(self, 'result', _NO_RESULT)` in Deferred.__iter__")
-    isR = lambda e: isinstance(e, ast.Name) and e.id in R
-    yields = ig.find(lambda x: isinstance(x, (ast.Yield, ast.YieldFrom)))
-    ctx.check(bool(yields), "await/suspends", iq, "__iter__ never yields: awaiting an unfired Deferred cannot suspend")
-    for y in yields:
-        ys = [x for x in ast.walk(ig.node(y).ast) if isinstance(x, (ast.Yield, ast.YieldFrom))]
-        cons = ctx.construct(iq, ig.node(y).ast)
-        ctx.check(all(isinstance(x, ast.Yield) and is_name(x.value, "self") for x in ys), "await/yields-itself", cons,
-                  "the object handed to the driver is not the awaited Deferred itself")
-        def no_outcome(e, pol):
-            return _zero_fact(e, pol, lambda x: attr_of(x, "paused", "self")) is False or \
-                ident_fact(e, pol, isR, lambda x: (dotted(x) or "").endswith("_NO_RESULT")) is True
-        ctx.check(guarded_by_some_fact(ig, y, no_outcome), "await/suspends-only-without-result", cons, "the awaiter suspends although the Deferred has a result and is not paused")
-        wit = avoiding_path(ig, [y], [n for n in ig.ids(lambda n: n.kind in ("stmt", "test") and any(isR(x) for x in ast.walk(n.ast))) if n not in read_nodes], read_nodes)
-        ctx.check(wit is None, "await/result-reread-after-resume", cons, "after being resumed the awaiter uses the result it read before suspending (stale _NO_RESULT)",
-                  witness=ig.describe(wit))
-    rets = stmt_nodes(ig, lambda s: isinstance(s, ast.Return))
-    raises = call_nodes(ig, lambda c: isinstance(c.func, ast.Attribute) and c.func.attr == "raiseException") + stmt_nodes(ig, lambda s: isinstance(s, ast.Raise))
-    ctx.check(bool(rets) and bool(raises), "await/delivers-both-outcomes", iq, "__iter__ does not both return values and raise failures")
-    isfail = lambda e: isinstance(e, ast.Call) and dotted(e.func) == "isinstance" and len(e.args) == 2 and isR(e.args[0]) and is_name(e.args[1], "Failure")
-    for n in rets + raises:
-        cons = ctx.construct(iq, ig.node(n).ast)
-        ctx.check(known_zero(ig, n, lambda e: attr_of(e, "paused", "self")) is True, "await/not-while-paused", cons, "an outcome is delivered although the Deferred is paused")
-        ctx.check(any(ident_fact(e, pol, isR, lambda x: (dotted(x) or "").endswith("_NO_RESULT")) is False for e, pol in facts(ig, n)), "await/only-with-result", cons,
-                  "an outcome is delivered although the Deferred has no result (the _NO_RESULT marker would be delivered)")
-        v = known_bool(ig, n, isfail)
-        if n in rets:
-            ctx.check(v is False and isR(ig.node(n).ast.value), "await/value-returned-failure-raised", cons, "a Failure can be *returned* to the awaiter (or the value returned is not the result)")
-        else:
-            ctx.check(v is True, "await/value-returned-failure-raised", cons, "a plain value can be raised into the awaiter")
-            if isinstance(ig.node(n).ast, ast.Expr):
-                c = ig.node(n).ast.value
-                ctx.check(isinstance(c, ast.Call) and isinstance(c.func, ast.Attribute) and isR(c.func.value), "await/value-returned-failure-raised", cons + " (which failure)",
-                          "the exception raised is not the Deferred's Failure result")
-    cls = ctx.cls(DEFER, "Deferred")
-    aw = [st for st in cls.body if isinstance(st, ast.Assign) and any(is_name(t, "__await__") for t in st.targets)]
-    ctx.check(len(aw) == 1 and is_name(aw[0].value, "__iter__"), "await/alias", Q + "Deferred.__await__", "__await__ is not __iter__: coroutines and generators would see different behaviour")
+    with group(ctx, "await"):
+        itf = ctx.func(DEFER, "Deferred.__iter__")
+        ig = ctx.cfg(itf)
+        iq = Q + "Deferred.__iter__"
+        R = {t.id for n in stmt_nodes(ig, lambda s: True) for t, v in targets_values(ig.node(n).ast) if isinstance(t, ast.Name) and v is not None and _reads_self_result(v)}
+        read_nodes = stmt_nodes(ig, lambda st: any(isinstance(t, ast.Name) and v is not None and _reads_self_result(v) for t, v in targets_values(st)))
+        ctx.need(R, "`result = getattr(self, 'result', _NO_RESULT)` in Deferred.__iter__")
+        isR = lambda e: isinstance(e, ast.Name) and e.id in R
+        yields = ig.find(lambda x: isinstance(x, (ast.Yield, ast.YieldFrom)))
+        ctx.check(bool(yields), "await/suspends", iq, "__iter__ never yields: awaiting an unfired Deferred cannot suspend")
+        for y in yields:
+            ys = [x for x in ast.walk(ig.node(y).ast) if isinstance(x, (ast.Yield, ast.YieldFrom))]
+            cons = ctx.construct(iq, ig.node(y).ast)
+            ctx.check(all(isinstance(x, ast.Yield) and is_name(x.value, "self") for x in ys), "await/yields-itself", cons,
+                      "the object handed to the driver is not the awaited Deferred itself")
+            def no_outcome(e, pol):
+                return _zero_fact(e, pol, lambda x: attr_of(x, "paused", "self")) is False or \
+                    ident_fact(e, pol, isR, lambda x: (dotted(x) or "").endswith("_NO_RESULT")) is True
+            ctx.check(guarded_by_some_fact(ig, y, no_outcome), "await/suspends-only-without-result", cons, "the awaiter suspends although the Deferred has a result and is not paused")
+            wit = avoiding_path(ig, [y], [n for n in ig.ids(lambda n: n.kind in ("stmt", "test") and any(isR(x) for x in ast.walk(n.ast))) if n not in read_nodes], read_nodes)
+            ctx.check(wit is None, "await/result-reread-after-resume", cons, "after being resumed the awaiter uses the result it read before suspending (stale _NO_RESULT)",
+                      witness=ig.describe(wit))
+        rets = stmt_nodes(ig, lambda s: isinstance(s, ast.Return))
+        raises = call_nodes(ig, lambda c: isinstance(c.func, ast.Attribute) and c.func.attr == "raiseException") + stmt_nodes(ig, lambda s: isinstance(s, ast.Raise))
+        ctx.check(bool(rets) and bool(raises), "await/delivers-both-outcomes", iq, "__iter__ does not both return values and raise failures")
+        isfail = lambda e: isinstance(e, ast.Call) and dotted(e.func) == "isinstance" and len(e.args) == 2 and isR(e.args[0]) and is_name(e.args[1], "Failure")
+        for n in rets + raises:
+            cons = ctx.construct(iq, ig.node(n).ast)
+            ctx.check(known_zero(ig, n, lambda e: attr_of(e, "paused", "self")) is True, "await/not-while-paused", cons, "an outcome is delivered although the Deferred is paused")
+            ctx.check(any(ident_fact(e, pol, isR, lambda x: (dotted(x) or "").endswith("_NO_RESULT")) is False for e, pol in facts(ig, n)), "await/only-with-result", cons,
+                      "an outcome is delivered although the Deferred has no result (the _NO_RESULT marker would be delivered)")
+            v = known_bool(ig, n, isfail)
+            if n in rets:
+                ctx.check(v is False and isR(ig.node(n).ast.value), "await/value-returned-failure-raised", cons, "a Failure can be *returned* to the awaiter (or the value returned is not the result)")
+            else:
+                ctx.check(v is True, "await/value-returned-failure-raised", cons, "a plain value can be raised into the awaiter")
+                if isinstance(ig.node(n).ast, ast.Expr):
+                    c = ig.node(n).ast.value
+                    ctx.check(isinstance(c, ast.Call) and isinstance(c.func, ast.Attribute) and isR(c.func.value), "await/value-returned-failure-raised", cons + " (which failure)",
+                              "the exception raised is not the Deferred's Failure result")
+        cls = ctx.cls(DEFER, "Deferred")
+        aw = [st for st in cls.body if isinstance(st, ast.Assign) and any(is_name(t, "__await__") for t in st.targets)]
+        ctx.check(len(aw) == 1 and is_name(aw[0].value, "__iter__"), "await/alias", Q + "Deferred.__await__", "__await__ is not __iter__: coroutines and generators would see different behaviour")
 
 
 def _value_of(v, e) -> bool:
